@@ -5,6 +5,7 @@ package main
 // report violations.
 
 import (
+	"context"
 	"encoding/json"
 	"flag"
 	"fmt"
@@ -75,7 +76,7 @@ type obSummary struct {
 }
 
 func explicitKind(kind string) bool {
-	return kind == "post" || kind == "cs" || kind == "onpanic" || strings.HasPrefix(kind, "loop") || kind == "go" || kind == "lemma" || kind == "at" || kind == "atomic" || kind == "immutable" || kind == "lockset"
+	return kind == "post" || kind == "cs" || kind == "onpanic" || strings.HasPrefix(kind, "loop") || kind == "go" || kind == "lemma" || kind == "at" || kind == "atomic" || kind == "immutable" || kind == "lockset" || kind == "option" || kind == "chaninv"
 }
 
 func cmdCheck(args []string) int {
@@ -206,7 +207,11 @@ func cmdCheck(args []string) int {
 				}
 			}
 			res.Obligs = mine
+			t0 := time.Now()
 			e.DischargeAll(res, res.Axioms, 16)
+			if os.Getenv("EBU_VERBOSE") != "" {
+				fmt.Fprintf(os.Stderr, "  %-40s %4d instances  %.1fs\n", label, len(mine), time.Since(t0).Seconds())
+			}
 			summaries = append(summaries, summarizeObligs(res, d, e, outDir)...)
 			for _, o := range res.Obligs {
 				if o.Res.Solver != "" {
@@ -214,10 +219,9 @@ func cmdCheck(args []string) int {
 				}
 				solverSecs += o.Res.Seconds
 			}
-			// vacuity guard
+			// vacuity guard: the preconditions must not be unsatisfiable
 			for _, c := range res.Covers {
-				r := Discharge(filepath.Join(outDir, sanitize(res.Func)), c.Name, e.preludeText(res, res.Axioms), c.Assume, c.Goal, 5, false)
-				if r.Verdict == "unsat" {
+				if coverUnsat(filepath.Join(outDir, sanitize(res.Func)), c, e.preludeText(res, res.Axioms)) {
 					coverFails = append(coverFails, c.Name)
 				}
 			}
@@ -377,6 +381,9 @@ func scansServe(db *SpecDB, p string) bool {
 			return true
 		}
 	}
+	if (p == "C09" || p == "C01") && db.Callbacks["Option"] != nil {
+		return true
+	}
 	return p == "C03" && len(db.Guarded) > 0
 }
 
@@ -512,7 +519,7 @@ func runReplayDriver(P string, s *obSummary) map[string]interface{} {
 		defer os.Remove(tmp.Name())
 		cmd := exec.Command("go", "test", "-overlay", tmp.Name(), "-vet=off", "-count=1", "-timeout", "120s", "-run", "^TestVerifReplay"+P, ".")
 		cmd.Dir = filepath.Join(repoRoot, pkgDir)
-		cmd.Env = append(os.Environ(), "GOFLAGS=-mod=mod", "GOPROXY=off", "VERIF_OBLIGATION="+s.Name)
+		cmd.Env = append(os.Environ(), "GOFLAGS=-mod=mod", "GOPROXY=off", "GOTOOLCHAIN=auto", "VERIF_OBLIGATION="+s.Name)
 		out, err := cmd.CombinedOutput()
 		o := string(out)
 		if len(o) > 4000 {
@@ -571,3 +578,39 @@ func firstComment(file string) string {
 }
 
 func cmdSelftest(args []string) int { return 2 }
+
+// coverUnsat: true iff the assumptions of a cover are definitely unsatisfiable.
+// The quantifier-free relaxation is tried first (sat there settles it).
+func coverUnsat(dir string, c *Oblig, decls string) bool {
+	os.MkdirAll(dir, 0o755)
+	var rb strings.Builder
+	rb.WriteString(smtHeader)
+	rb.WriteString(dropQuantified(decls))
+	rb.WriteByte('\n')
+	for _, a := range c.Assume {
+		if strings.Contains(a.S, "forall") || strings.Contains(a.S, "exists") {
+			continue
+		}
+		fmt.Fprintf(&rb, "(assert %s)\n", a.S)
+	}
+	rb.WriteString("(check-sat)\n")
+	f := filepath.Join(dir, sanitize(c.Name)+".cover.smt2")
+	os.WriteFile(f, []byte(rb.String()), 0o644)
+	v, _, _ := runSolver(context.Background(), solvers[0], f, 3)
+	if v == "sat" {
+		return false
+	}
+	// full query, short timeout: only a definite unsat counts
+	var b strings.Builder
+	b.WriteString(smtHeader)
+	b.WriteString(decls)
+	b.WriteByte('\n')
+	for _, a := range c.Assume {
+		fmt.Fprintf(&b, "(assert %s)\n", a.S)
+	}
+	b.WriteString("(check-sat)\n")
+	f2 := filepath.Join(dir, sanitize(c.Name)+".coverfull.smt2")
+	os.WriteFile(f2, []byte(b.String()), 0o644)
+	r := solveFile(f2, 3, false)
+	return r.Verdict == "unsat"
+}
